@@ -531,10 +531,42 @@ func (g *gen) genCrash(nops int, profile string) {
 			a, b := g.prefixSpan()
 			g.add(DBOp{K: "excise", Key: a, End: b})
 		case x < 80:
-			g.add(DBOp{K: "flush"})
+			if g.r.IntN(3) == 0 {
+				// asynchronous: the operations that follow overlap the flush
+				// (and its MANIFEST write, which a stall rule may hold open)
+				g.add(DBOp{K: "aflush"})
+			} else {
+				g.add(DBOp{K: "flush"})
+			}
 		case x < 83:
 			a, b := g.span()
 			g.add(DBOp{K: "compact", Key: a, End: b})
+		case x < 84 && wReaders && profile != "flushdur":
+			// A window in which bookkeeping may run ahead of durability: a reader
+			// pins the tables a compaction replaces; a synced write; a flush that
+			// is stalled in its MANIFEST sync while the reader is closed (its
+			// old version and the files only it kept alive are released), more
+			// synced writes arrive and the next flush rotates the WAL.
+			id := g.newID()
+			g.add(DBOp{K: "iter", ID: id, IO: &IterOpts{}})
+			g.add(DBOp{K: "flush"})
+			a, b := g.span()
+			g.add(DBOp{K: "compact", Key: a, End: b})
+			o := g.writeOp(rangeKeys)
+			o.Sync = true
+			g.add(o)
+			g.add(DBOp{K: "armstall", Mode: "manifest-write", N: 5 + g.r.IntN(100)})
+			g.add(DBOp{K: "aflush"})
+			g.add(DBOp{K: "iterclose", ID: id})
+			for j := 1 + g.r.IntN(3); j > 0; j-- {
+				o := g.writeOp(rangeKeys)
+				o.Sync = g.r.IntN(2) == 0
+				g.add(o)
+			}
+			g.add(DBOp{K: "aflush"})
+			o = g.writeOp(rangeKeys)
+			o.Sync = true
+			g.add(o)
 		case x < 86 && wReaders:
 			// A reader held across writes, flushes and compactions: closing it
 			// releases an old version (and with it obsolete files) at an
@@ -630,6 +662,11 @@ func (e *dbEngine) Generate(profile string, seed uint64, tier string) (*Plan, er
 			g.disabled["singledel"] = true
 		}
 		g.genMixed(nops, w)
+		if (profile == "files" || profile == "maint" || profile == "snap") && g.r.IntN(3) == 0 {
+			// stalled MANIFEST / table / directory syncs hold version edits
+			// "written but not yet durable" across many client operations
+			faults = g.genDelays()
+		}
 		if profile == "corrupt" {
 			n := 24
 			if tier == "thorough" {
